@@ -9,24 +9,24 @@
 (* digest material) - the concrete strings in the event (cu, cp, cresp)    *)
 (* are never read here.                                                    *)
 (***************************************************************************)
-EXTENDS Auth, Integers, TLC, Json, IOUtils
+EXTENDS Auth, Integers, FiniteSets, TLC, Json, IOUtils
 
 Rec == ndJsonDeserialize(IOEnv.TRACE)
-MaxBad == 2000
+MaxBad == 25        \* mismatch records kept per kind of deviation and shard; every mismatch is counted in cnt["bad:<kind>"]
 VARIABLES l, store, bad, cnt
 vars == <<l, store, bad, cnt>>
 
 Inc(c, k) == IF k \in DOMAIN c THEN [c EXCEPT ![k] = @ + 1] ELSE c @@ (k :> 1)
 BadRec(e, what, exp, want) == [sc |-> e.sc, i |-> e.i, a |-> e.a.a, what |-> what, exp |-> exp, obs |-> e.out, dev |-> "",
                                cfg |-> e.cfg, want |-> want]
-AddBad(b, r) == IF Len(b) < MaxBad THEN Append(b, r) ELSE b
+AddBad(b, r) == IF Cardinality({ i \in 1..Len(b) : b[i].what = r.what /\ b[i].obs = r.obs }) < MaxBad THEN Append(b, r) ELSE b
 Init == l = 1 /\ store = EmptyStore /\ bad = <<>> /\ cnt = [ok |-> 0, queries |-> 0]
 
 Entries(s) == { [u |-> u, k |-> s[u].k, pw |-> s[u].pw] : u \in DOMAIN s }
 StepBuild(e, s2) ==
    /\ store' = s2
    /\ bad' = IF e.out = "ok" THEN bad ELSE AddBad(bad, BadRec(e, "build", "ok", <<>>))
-   /\ cnt' = IF e.out = "ok" THEN Inc(Inc(cnt, "ok"), "build:" \o e.a.a) ELSE cnt
+   /\ cnt' = IF e.out = "ok" THEN Inc(Inc(cnt, "ok"), "build:" \o e.a.a) ELSE Inc(cnt, "bad:build")
 StepVerify(e, accept, tag) ==
    LET exp == Verdict(accept)
        w == IF e.out = exp THEN "" ELSE IF e.out \notin {"accept", "reject"} THEN e.out
@@ -34,7 +34,7 @@ StepVerify(e, accept, tag) ==
        c1 == Inc(Inc(cnt, "queries"), tag \o ":" \o exp) IN
    /\ store' = store
    /\ bad' = IF w = "" THEN bad ELSE AddBad(bad, BadRec(e, w, exp, Entries(store)))
-   /\ cnt' = IF w = "" THEN Inc(c1, "ok") ELSE c1
+   /\ cnt' = IF w = "" THEN Inc(c1, "ok") ELSE Inc(c1, "bad:" \o w)
 Step(e) ==
    LET a == e.a IN
    CASE a.a = "reset" -> StepBuild(e, EmptyStore)
